@@ -132,7 +132,7 @@ def gen_sequence(r, scopes, desc):
         pending = list(work)
         while pending or open_by_thread:
             th = r.randrange(T)
-            dtm = r.choice([0.0, 2.0 ** -11, 2.0 ** -13, 2.0 ** -11]) if micro else r.choice([0.0, 0.0, 0.25, 1.0, 3.5, 60.0, 2.0 ** -11])
+            dtm = r.choice([0.0, 2.0 ** -11, 2.0 ** -13, 2.0 ** -11]) if micro else r.choice([0.0, 0.0, 0.25, 1.0, 3.5, 60.0, 2.0 ** -11, 59.5, 600.0, 3599.0, 7300.0] if r.random() < 0.3 else [0.0, 0.0, 0.25, 1.0, 3.5, 60.0, 2.0 ** -11])
             if th in open_by_thread:
                 sc = open_by_thread.pop(th)
                 left_open = r.random() < 0.03
@@ -191,6 +191,17 @@ def matches(parsed, fin):
     if parsed["running"] is not None and parsed["running"] != fin["running"]:
         return False
     return True
+
+
+def ref_elapsed(e):
+    """The documented look of an attributed time: whole seconds as 5s / 2m05s / 1h02m05s."""
+    e = int(e)
+    h, m, s = e // 3600, (e % 3600) // 60, e % 60
+    if h:
+        return f"{h}h{m:02}m{s:02}s"
+    if m:
+        return f"{m}m{s:02}s"
+    return f"{s}s"
 
 
 def run_case(desc):
@@ -341,6 +352,7 @@ def run_case(desc):
         elif thread_errors:
             bad = f"the display's update thread died: {thread_errors[0]}"
         # ---- final rendering reflects final counts
+        shown_elapsed = {}
         if bad is None:
             if kind == "console":
                 text = cap.getvalue()
@@ -353,6 +365,7 @@ def run_case(desc):
                         parts = line.split(" | ", 2)
                         if len(parts) == 3:
                             last[(section, parts[2])] = parts[0]
+                            shown_elapsed[(section, parts[2])] = parts[1].strip()
                     elif line.startswith("uberjob, elapsed"):
                         section = None
                 for (section, sc), fin in final.items():
@@ -386,14 +399,45 @@ def run_case(desc):
                         if not hit or not any(matches(parse_progress(c[1].strip()), fin) for c in hit):
                             bad = f"HTML: last document shows {[c[1].strip() for c in hit]} for {section}/{sc!r}, final counts are {fin}"
                             break
+                        shown_elapsed[(section, ", ".join(str(v) for v in sc))] = html.unescape(hit[-1][2].strip())
             else:
                 cache = obs._widget_cache or {}
+                # what the user sees is the widget tree handed to display(): display must have been called, and every label must hang in that tree
+                root = cache.get(())
+                shown = set()
+                stack = [root] if root is not None else []
+                while stack:
+                    w_ = stack.pop()
+                    if id(w_) in shown:
+                        continue
+                    shown.add(id(w_))
+                    stack.extend(getattr(w_, "children", ()) or ())
+                if final and "VBox(" not in cap.getvalue():
+                    bad = "IPython: display() was never called - the widgets are updated but nothing is shown"
                 for (section, sc), fin in final.items():
+                    if bad:
+                        break
                     w = cache.get(("section", section, "scope", sc, "label"))
                     got = None if w is None else w.value.split("; ")[0]
                     if got is None or not matches(parse_progress(got), fin):
                         bad = f"IPython: label for {section}/{sc!r} shows {got!r}, final counts are {fin}"
                         break
+                    if id(w) not in shown:
+                        bad = f"IPython: the label for {section}/{sc!r} is not part of the displayed widget tree"
+                        break
+                    shown_elapsed[(section, ", ".join(str(v) for v in sc))] = w.value.split("; ")[1] if w.value.count("; ") >= 2 else None
+        # ---- the time shown per scope is the attributed time, in the documented h/m/s form (direct mode: the last rendering is the last event)
+        if bad is None and not threaded:
+            for section, m_ in obs._state.section_scope_mapping.items():
+                for sc, ss in m_.items():
+                    key_ = (section, ", ".join(str(v) for v in sc))
+                    if key_ in shown_elapsed and shown_elapsed[key_] is not None and shown_elapsed[key_] != ref_elapsed(ss.weighted_elapsed):
+                        bad = (f"{kind}: the last rendering shows {shown_elapsed[key_]!r} as the time attributed to {section}/{sc!r}; "
+                               f"attributed are {ss.weighted_elapsed:.3f}s = {ref_elapsed(ss.weighted_elapsed)!r}")
+                        break
+                if bad:
+                    break
+            elapsed_strings_checked = len(shown_elapsed)
         # ---- elapsed attribution
         if bad is None:
             tot = sum(ss.weighted_elapsed for m in obs._state.section_scope_mapping.values() for ss in m.values())
